@@ -84,9 +84,10 @@ func VFChunks(s *HStore, bucket int) (head int, chunks []VFChunk) {
 	return
 }
 
-// VFLegalRanges enumerates every (begin,end) the store's own range check
-// accepts for the bucket (noGCDays = 0).
-func VFLegalRanges(s *HStore, bucket int) (ranges [][2]int) {
+// VFLegalRanges enumerates every resolved (begin,end) the store's own range
+// check accepts for the bucket (noGCDays = 0), each with one argument pair
+// (argB,argE) that resolves to it.
+func VFLegalRanges(s *HStore, bucket int) (ranges [][4]int) {
 	bkt := s.buckets[bucket]
 	head := bkt.datas.newHead
 	seen := map[[2]int]bool{}
@@ -95,7 +96,7 @@ func VFLegalRanges(s *HStore, bucket int) (ranges [][2]int) {
 			rb, re, err := bkt.gcCheckRange(b, e, 0)
 			if err == nil && !seen[[2]int{rb, re}] {
 				seen[[2]int{rb, re}] = true
-				ranges = append(ranges, [2]int{rb, re})
+				ranges = append(ranges, [4]int{rb, re, b, e})
 			}
 		}
 	}
